@@ -1178,7 +1178,12 @@ def run_c16(tier):
           "their exact heights; %d real traces validated (%d observations), drift=%d; violations=%d"
           % (tier, len(shapes), check.cov["evaluations"], check.cov["tailcall_sites_checked"],
              m["traces_validated"], m["observations"], len(drifts), len(violations)))
-    return check.finish()
+    # ... and space that the EXECUTOR (not the bytecode) can leak around a select: the runtime engine's select
+    # scenarios under seeded schedules, monitor rule ParkedStackEmpty (a process parks in a select with an empty
+    # operand stack: a stranded filter verdict or select result would grow a receive loop's stack by one cell
+    # per iteration - seeded change C16-3)
+    import runtime
+    return runtime.run("C16", tier, check=check)
 
 
 def run(prop, tier):
